@@ -2,6 +2,7 @@ package main
 
 import (
 	"fmt"
+	"go/token"
 	"go/types"
 	"sort"
 	"strings"
@@ -184,6 +185,8 @@ func runC18(c *Ctx) {
 	}
 	c.ruleStoresLocked("J4-stores-locked")
 	c.Min("J4-stores-locked", 20)
+	c.ruleLocalsUpdatedAtomically("J6-locals-updated-atomically")
+	c.Min("J6-locals-updated-atomically", 1)
 	// J5
 	for _, n := range []string{"AcceptAssignment", "AcceptFunctionCall", "AcceptMethodCall", "AcceptThreeLevelCall"} {
 		f := c.MustFn("J5-children-attached", "internal/base", "ConcStatement", n)
@@ -214,4 +217,94 @@ func runC18(c *Ctx) {
 		c.Check("J5-children-attached", "ConcStatement."+n, ok && branches == 0, f.Pos(), "the child must be appended to its slice unconditionally")
 	}
 	_ = strings.Join
+}
+
+// ruleLocalsUpdatedAtomically (J6): two children of a conc block may assign the same local (different fields
+// of a struct kept by value, say). A new table entry computed from the entry read before must be stored in
+// the critical section that read it: a read under lockVars, an unlock, and a later locked store of a value
+// derived from that read lets a sibling's store in between be overwritten -- an assignment the statement
+// after the block never observes.
+func (c *Ctx) ruleLocalsUpdatedAtomically(rule string) {
+	n := 0
+	for _, f := range c.AllFns {
+		if f.Pkg == nil || f.Pkg.Pkg.Path() != pContext {
+			continue
+		}
+		x := c.Index(f)
+		var reads []*ssa.Lookup
+		var writes []*ssa.MapUpdate
+		eachInstr(f, func(in ssa.Instruction) {
+			switch t := in.(type) {
+			case *ssa.Lookup:
+				if isVarsMapType(t.X.Type()) {
+					if _, isBase := x.isFieldLoad(t.X, "DataContext", "base"); !isBase {
+						reads = append(reads, t)
+					}
+				}
+			case *ssa.MapUpdate:
+				if isVarsMapType(t.Map.Type()) {
+					if _, isBase := x.isFieldLoad(t.Map, "DataContext", "base"); !isBase {
+						writes = append(writes, t)
+					}
+				}
+			}
+		})
+		for wi, w := range writes {
+			n++
+			// the reads the stored value is computed from
+			from := map[*ssa.Lookup]bool{}
+			seen := map[ssa.Value]bool{}
+			var slice func(v ssa.Value, d int)
+			slice = func(v ssa.Value, d int) {
+				if v == nil || d > 12 || seen[v] {
+					return
+				}
+				seen[v] = true
+				switch t := v.(type) {
+				case *ssa.Lookup:
+					for _, r := range reads {
+						if r == t {
+							from[r] = true
+						}
+					}
+					return
+				case *ssa.UnOp:
+					if t.Op == token.MUL {
+						if _, isAl := x.ResolveAddr(t.X).(*ssa.Alloc); isAl {
+							for _, pv := range x.PossibleValues(t) {
+								if pv.V != nil {
+									slice(pv.V, d+1)
+								}
+							}
+							return
+						}
+					}
+				}
+				if in, isIn := v.(ssa.Instruction); isIn {
+					for _, op := range in.Operands(nil) {
+						if *op != nil {
+							slice(*op, d+1)
+						}
+					}
+				}
+			}
+			slice(w.Value, 0)
+			bad := ""
+			for r := range from {
+				// same critical section: no unlock of the locals lock on the way from the read to the store
+				if hit, found := pathExists(f, r, func(in ssa.Instruction) bool {
+					_, m, recv, ok := syncCall(in)
+					return ok && (m == "Unlock" || m == "RUnlock") && x.mutexName(recv) == "DataContext.lockVars"
+				}, func(in ssa.Instruction) bool { return in == ssa.Instruction(w) }); found {
+					if _, reaches := pathExists(f, hit, func(in ssa.Instruction) bool { return in == ssa.Instruction(w) }, nil); reaches {
+						bad = "the entry read at " + c.pos(r.Pos()) + " is released (" + c.pos(hit.Pos()) + ") before the value computed from it is stored"
+					}
+				}
+			}
+			c.Check(rule, fmt.Sprintf("%s#store%d", fnName(f), wi+1), bad == "", w.Pos(), "%s", orStr(bad, "not computed from an entry read in another critical section"))
+		}
+	}
+	if n == 0 {
+		c.Lost(rule, "stores into the locals table in package context")
+	}
 }
